@@ -31,6 +31,7 @@ type EdgeRule struct {
 	Class    string
 	Lits     []core.Lit
 	C, P     ssa.Value
+	G        ssa.Value // the graph operand (bound to the call site's argument when the edge is added in a helper)
 }
 
 type edgeSiteT struct {
@@ -126,7 +127,7 @@ func (c *Ctx) edgeRules() []EdgeRule {
 		for _, es := range esites {
 			call, a := es.call, es.a
 			ef := call.Parent()
-			e := EdgeRule{Fn: ef, Call: call, Pos: es.pos, C: a[1], P: a[2], Rel: map[string]string{}, Inner: es.inner}
+			e := EdgeRule{Fn: ef, Call: call, Pos: es.pos, C: a[1], P: a[2], G: a[0], Rel: map[string]string{}, Inner: es.inner}
 			e.Role = roleOf[core.Outer(ef)]
 			if e.Role == "" {
 				e.Role = core.FuncName(ef)
@@ -142,9 +143,15 @@ func (c *Ctx) edgeRules() []EdgeRule {
 			e.PK, e.PF, e.PNew = c.describeVertex(a[2], e.Lits)
 			// re-weighting: consumer is an element of InEdges(provider) on a graph
 			if r, ok := core.Root(a[1]).(*ssa.Call); ok && core.CalleeName(r.Common()) == core.GInEdges {
+				// compared under the call site's binding when the loop lives in a helper that is handed the vertex
+				saved := core.PathEnv
+				if es.env != nil {
+					core.PathEnv = es.env
+				}
 				if core.Path(r.Common().Args[1]) == core.Path(a[2]) {
 					e.Reweight = true
 				}
+				core.PathEnv = saved
 			}
 			if kerr == nil {
 				c.relate(&e, kinds)
